@@ -316,8 +316,10 @@ class C28(Property):
     required_theorems = [
         'C28_rs_row_is_quadratic', 'C28_rs_quadratic', 'C28_rs_quadratic_of_full_rank',
         'C28_rs_linearize',
-        'C28_interp_at_train_weighted', 'C28_interp_at_train_linear', 'C28_interp_at_train_rbf',
-        'C28_interp_at_train_kriging', 'C28_kriging_train_residual', 'C28_kriging_unit_weights',
+        'C28_interp_at_train_weighted', 'C28_interp_at_train_linear', 'C28_linear_through_neighbours',
+        'C28_interp_at_train_rbf', 'C28_rbf_dense_eq_neighbour_sum',
+        'C28_interp_at_train_kriging', 'C28_kriging_train_residual', 'C28_kriging_nugget_error',
+        'C28_kriging_unit_weights',
         'C28_dist_dual',
         'C28_linearize_is_derivative_weighted', 'C28_linearize_is_derivative_linear',
         'C28_linearize_is_derivative_rbf', 'C28_linearize_is_derivative_kriging',
